@@ -34,7 +34,7 @@ RULE = (
     "after the pending timer fired (bound 1 quick, 2 thorough; ALL placements (free) for sequences of <= 3 (thorough <= 4) datagrams); handler "
     "shapes: k in {1, 2, inf} requests per generator x work per request in {0, 1, 2 checkpoints, sleep 1.0 s for address A} x "
     "yielded timeout in {None, 0.5} x raises ValueError (high-level API) or dies with CancelledError (both APIs) on request r in {none, A1, A2} x one malformed datagram at position "
-    "{none, first, last}; APIs: AsyncUDPNetworkServer and low-level AsyncDatagramServer; plus bursts of 2 / 40 / 300 (thorough also 1100) datagrams read by the loop BEFORE serve() is awaited (all delivered, per-address order); distinct_nontrivial = distinct "
+    "{none, first, last}; APIs: AsyncUDPNetworkServer and low-level AsyncDatagramServer; plus bursts of 2 / 40 / 300 (thorough also 1100) datagrams read by the loop BEFORE serve() is awaited, alone or with further datagrams already in the socket when serve() starts (all delivered, per-address order); distinct_nontrivial = distinct "
     "(configuration class, handler log) pairs of executions with a non-default placement or with >= 2 datagrams"
 )
 ASSUMPTIONS = [
@@ -429,14 +429,19 @@ def run_burst(cfg: dict) -> dict:
         usock = backend.udp_listener_socks[0]
         order = [("A" if (i % 3) else "B") for i in range(n)]
         cnt = {"A": 0, "B": 0}
+        items = []
         for a in order:
             cnt[a] += 1
-            usock.rxd.append((f"{a}{cnt[a]}".encode(), ADDR[a]))
+            items.append((f"{a}{cnt[a]}".encode(), ADDR[a]))
+        early = items if not cfg.get("late") else items[: max(1, (2 * n) // 3)]
+        usock.rxd.extend(early)
         for _ in range(4 * n):  # the loop reads them (one per readiness callback) while nobody serves
             if not usock.rxd:
                 break
             await asyncio.sleep(0)
-        out["read_before_serve"] = n - len(usock.rxd)
+        out["read_before_serve"] = len(early) - len(usock.rxd)
+        # "late": the rest is already in the socket when serve() starts (read in the very iterations in which the backlog is replayed)
+        usock.rxd.extend(items[len(early):])
         ll = AsyncDatagramServer(listener, proto)
 
         async def handler(c: Any) -> Any:
@@ -461,8 +466,8 @@ def run_burst(cfg: dict) -> dict:
 
 def run_burst_job(job: dict) -> JobResult:
     res = JobResult()
-    for n in ((2, 40, 300) if job["tier"] == "quick" else (2, 40, 300, 1100)):
-        cfg = {"n": n}
+    for n, late in [(x, l) for x in ((2, 40, 300) if job["tier"] == "quick" else (2, 40, 300, 1100)) for l in (False, True)] + [(3, True), (4, True), (7, True)]:
+        cfg = {"n": n, "late": late}
         obs = run_burst(cfg)
         res.evaluations += 1
         res.transitions += n
@@ -473,7 +478,7 @@ def run_burst_job(job: dict) -> JobResult:
             lost = sum(len(obs["want"][a]) - len(obs["seen"][a]) for a in "AB")
             bad = "datagrams-received-before-serve-lost" if lost > 0 else "datagrams-received-before-serve-reordered-or-duplicated"
         res.outcome("burst-ok" if bad is None else "VIOLATION:" + bad)
-        res.nontrivial.add(digest(("burst", n, obs.get("read_before_serve"), bad)))
+        res.nontrivial.add(digest(("burst", n, late, obs.get("read_before_serve"), bad)))
         if bad and not any(v.key == f"ll/{bad}" for v in res.violations):
             res.violations.append(Violation(f"ll/{bad}", f"{n} datagrams (2/3 from A, 1/3 from B) read by the loop before serve() was awaited ({obs.get('read_before_serve')} read): handlers saw "
                                                          f"{len(obs['seen']['A'])} from A (first {obs['seen']['A'][:3]}), {len(obs['seen']['B'])} from B (first {obs['seen']['B'][:3]}); status={obs['status']}",
